@@ -11,6 +11,7 @@ CONSTANTS
   MaxKill = 1
   MaxDetach = 0
   MaxEnv = 1
+  NPS = 7
   MaxFail = 1
 INVARIANTS AckedExclusive AckedOnDisk OneWriter GcAlone
 VIEW MCView
